@@ -8,8 +8,9 @@
    root, and `is_value c v` says that v is what the metric returns: v = post(roots) for the
    non-negative roots of pre_values.  sqrt / exp / log are never computed: they are characterised. *)
 From Coq Require Import QArith Qabs List Bool ZArith Permutation.
+From Coq Require String.
 Require Import SkV.C06.Model SkV.C06.Gen SkV.C06.Bridge SkV.C06.Agg SkV.C06.Proofs.
-Require Import SkV.C06.Wrap SkV.C06.GenWrap.
+Require Import SkV.C06.Wrap SkV.C06.WrapSem SkV.C06.GenWrap.
 Import ListNotations.
 Open Scope Q_scope.
 
@@ -170,16 +171,45 @@ Theorem C06_multioutput_average_of_columns : forall b k a rt mo hw cols,
 Proof. exact simple_ignores_mo. Qed.
 Print Assumptions C06_multioutput_average_of_columns.
 
-(* ---- classes.  `gen_wrappers` is the table of wrapper facts regenerated from _classes.py.  A class
-   whose facts pass the decidable check `wrapper_ok`, called with the series its function needs,
-   calls that function with every constructor argument under its own name; a class that does not
-   pass either raises or loses / renames an argument (Refuted.v lists the 0.6.0 instances) *)
-Theorem C06_class_eq_function : forall w s, In (w, s) gen_wrappers -> wrapper_ok w s = true ->
+(* ---- classes.  `gen_wrappers` is the table of wrapper facts regenerated from _classes.py (which
+   function a class wraps, its constructor parameters, what the constructor stores, whether
+   __call__ takes and forwards **kwargs, which attribute it passes under which keyword).  Bridge.v
+   proves on every run that all 18 rows are well-formed wrappers; the theorems below are therefore
+   unconditional over the table. *)
+
+(* each class, called with the series its function needs, calls that function with every
+   constructor argument under its own name: "the function with the same options" *)
+Theorem C06_class_eq_function : forall w s, In (w, s) gen_wrappers ->
   exists b, class_call w s (s_series s) = Calls (s_name s) b /\
             same_bindings b (same_options w) = true.
-Proof. exact (fun w s _ => wrapper_ok_sound w s). Qed.
+Proof. exact class_eq_function. Qed.
 Print Assumptions C06_class_eq_function.
 
+(* ... and what it computes is the published formula of that function under the options given to
+   the constructor, whatever they are: no option the formula depends on is dropped, renamed or
+   replaced by a constant *)
+Theorem C06_class_computes_the_function_formula : forall w s, In (w, s) gen_wrappers ->
+  exists n, fname n = s_name s /\
+    forall user, class_metric gen_defaults w s user = Some (textbook n user).
+Proof. exact class_metric_is_textbook. Qed.
+Print Assumptions C06_class_computes_the_function_formula.
+
+(* without the series the function needs, a class call is the function's own TypeError; a series
+   the function does not take is a TypeError as well *)
+Theorem C06_class_needs_exactly_its_series : forall w s given, In (w, s) gen_wrappers ->
+  subset given (s_series s) && subset (s_series s) given = false -> class_call w s given = TypeErr.
+Proof. exact class_series_required. Qed.
+Print Assumptions C06_class_needs_exactly_its_series.
+
+(* a default-constructed class runs with the documented defaults of its function *)
+Theorem C06_class_defaults_are_function_defaults :
+  forall cls f cd, In (cls, f, cd) gen_ctor_defaults ->
+  exists n, fname n = f /\ defaults_agree (documented_defaults n) cd = true.
+Proof. exact ctor_defaults_documented. Qed.
+Print Assumptions C06_class_defaults_are_function_defaults.
+
+(* the criterion is discriminating: a wrapper that fails it either raises or loses / renames an
+   argument (Refuted.v lists the four shapes 0.6.0 had before the fix commits) *)
 Theorem C06_class_not_ok_is_visible : forall w s, wrapper_ok w s = false ->
   match class_call w s (s_series s) with
   | Calls f b => same_bindings b (same_options w) = false \/ f <> s_name s
@@ -191,8 +221,9 @@ Print Assumptions C06_class_not_ok_is_visible.
 (* every metric function has exactly one class in the regenerated table *)
 Theorem C06_every_function_has_a_class :
   length gen_wrappers = 18%nat /\
-  forallb (fun ws => String.eqb (w_func (fst ws)) (s_name (snd ws))) gen_wrappers = true.
-Proof. exact gen_wrappers_cover. Qed.
+  forallb (fun ws => String.eqb (w_func (fst ws)) (s_name (snd ws))) gen_wrappers = true /\
+  forall n, exists w s, In (w, s) gen_wrappers /\ s_name s = fname n.
+Proof. exact every_function_has_a_class. Qed.
 Print Assumptions C06_every_function_has_a_class.
 
 (* non-vacuity: RMSSE on a concrete two-output instance satisfies every hypothesis above and has
